@@ -244,7 +244,7 @@ func (s *Sink) Close(rule string, exhaustive bool) {
 const gcsPrelude = `From Coq Require Import List NArith ZArith.
 Import ListNotations.
 From Emu.Common Require Import Bytes Str.
-From Emu.GCS Require Import Model Check Oracles Url Conc ConcCheck.
+From Emu.GCS Require Import Model Check Oracles Url Conc ConcCheck FsPaths.
 `
 
 // ---------- stores ----------
@@ -424,6 +424,13 @@ func doReplay(path, out string) {
 		panic(err)
 	}
 	sink := NewSink(out, gcsPrelude, "(list req * list resp)", "check_all", 100)
+	if rp.Case.Tag == "fs-paths" && len(rp.Case.Prog) == 1 {
+		c, text := fsPathCase(rp.Case.Prog[0].B, rp.Case.Prog[0].N)
+		js, _ := jsonMarshal(c)
+		sink.AddPreV("fspaths", "check_fspaths", fsPathType, c, text, js, true)
+		sink.Close("replay of one recorded case", false)
+		return
+	}
 	for _, mk := range stores() {
 		if rp.Case.Store != "" && rp.Case.Store != mk.name {
 			continue
